@@ -303,9 +303,9 @@ class Interp:
         self.discr_types = {}
         self.diverged = []      # states of paths that ended in a panic / diverging call
         self.blocks = 0
-        self.block_cap = 1500000
+        self.block_cap = 600000
         import time as _t
-        self.deadline = _t.time() + 90.0
+        self.deadline = _t.time() + 25.0
 
     # ---- places --------------------------------------------------------------------------------
     def resolve(self, st, frame, place):
